@@ -120,6 +120,17 @@ void SimBackend::SetInterrupter(mp::Interrupter* inter) {
   DoRegistrations(inter, -1);
 }
 
+int g_dual_mode = 0;
+double SimBackend::ConTag(int group, int idx) {
+  double t = 20000.0 + 1000.0 * group + idx + 0.25;
+  switch (g_dual_mode) {
+    case 1: return -t;
+    case 2: return t / 100000.0;
+    case 3: return (idx & 1) ? 0.0 : -t;
+    default: return t;
+  }
+}
+
 std::vector<double> SimBackend::VarVec(const char* lenkey, double shift) const {
   std::string mode = script_str(lenkey, "full");
   int n = (int)M().vars.size();
